@@ -934,6 +934,50 @@ class SymCtx:
 
     def _decide(self, goal):
         """Is pc & not(goal) satisfiable?  -> (result, model dict or None, reason)."""
+        r, m, why = self._decide0(goal)
+        if r == z3.sat and any(z3.is_real(v) for v in self.inputs.values()):
+            better = self._nicer_model(goal)
+            if better is not None:
+                m = better
+        return r, m, why
+
+    def _nicer_model(self, goal):
+        """A counterexample with well-conditioned values (moderate magnitudes, a violation that is
+        not of rounding size), so that the float32/float64 replay on the real code can show it."""
+        chosen, vs = self._cone([goal])
+        sv = z3.Solver()
+        sv.set("timeout", 15000)
+        sv.add(chosen)
+        sv.add(z3.Not(goal))
+        for name, v in self.inputs.items():
+            if z3.is_real(v) and z3.is_const(v) and name in vs and name != "PI":
+                sv.add(z3.And(v >= -16, v <= 16, z3.Or(v == 0, v >= z3.Q(1, 16), v <= z3.Q(-1, 16))))
+        if z3.is_eq(goal) and z3.is_real(goal.arg(0)):
+            d = goal.arg(0) - goal.arg(1)
+            sv.push()
+            sv.add(z3.Or(d >= z3.Q(1, 50), d <= z3.Q(-1, 50)))
+            r = sv.check()
+            if r != z3.sat:
+                sv.pop()
+                r = sv.check()
+        else:
+            r = sv.check()
+        self.queries += 1
+        if r != z3.sat:
+            return None
+        m = sv.model()
+        out = {}
+        base = None
+        for name, v in self.inputs.items():
+            if _vars(v) & vs:
+                out[name] = _val_to_py(m.eval(v, model_completion=True))
+            else:
+                if base is None:
+                    base = self.check_all(self.opts.oblig_timeout_ms, want_model=True)[1] or {}
+                out[name] = base.get(name, 0)
+        return out
+
+    def _decide0(self, goal):
         if z3.is_true(goal):
             return z3.unsat, None, ""
         if not getattr(self, "_skip_incremental", False) and not self.nonlinear:
